@@ -30,3 +30,26 @@ package link_solicit
 // Injectivity: for a fixed 32-byte session ID, equal preimages have equal protocol IDs and contexts,
 // however the bytes are split between the two fields.
 //@ lemma protoHashPre-injective: forall s bytes, p1 string, c1 bytes, p2 string, c2 bytes :: len(s) == 32 && len(p1) < 4294967296 && len(p2) < 4294967296 && protoHashPre(s, p1, c1) == protoHashPre(s, p2, c2) ==> p1 == p2 && c1 == c2
+
+// ---- C32: session ID and intersection ----
+// sessHash(lo, hi): the session ID is a function of the ordered pair of peer IDs only, so both
+// ends (which see the same two IDs in opposite roles) compute the same value.
+//@ spec fun sessHash(lo string, hi string) bytes = blake3(lo ++ hi)[..32]
+//@ func ComputeSessionID
+//@   ensures len(ret) == 32
+//@   ensures !(peerB < peerA) ==> content(ret) == sessHash(peerA, peerB)
+//@   ensures peerB < peerA ==> content(ret) == sessHash(peerB, peerA)
+//@   fresh ret
+
+// the preimage lo ++ hi determines (lo, hi) among peer IDs of equal length
+//@ lemma sessPre-decode: forall a string, b string :: (a ++ b)[..len(a)] == a && (a ++ b)[len(a)..] == b
+//@ lemma sessPre-injective: forall a string, b string, a2 string, b2 string :: len(a) == len(a2) && a ++ b == a2 ++ b2 ==> a == a2 && b == b2
+
+// FindMatchingHashes: every result equals (byte-wise) an element of both inputs, results are
+// independent copies, and the output is sorted when the inputs are.
+//@ func FindMatchingHashes
+//@   ensures forall k int :: 0 <= k && k < len(ret) ==> exists i2 int, j2 int :: 0 <= i2 && i2 < len(local) && 0 <= j2 && j2 < len(remote) && ret[k] == local[i2] && ret[k] == remote[j2]
+//@   loop 1 invariant 0 <= i && i <= len(local) && 0 <= j && j <= len(remote)
+//@   loop 1 invariant forall k int :: 0 <= k && k < len(matches) ==> exists i2 int, j2 int :: 0 <= i2 && i2 < i && 0 <= j2 && j2 < j && matches[k] == local[i2] && matches[k] == remote[j2]
+//@   ensures forall k int :: 0 <= k && k < len(ret) ==> fresh(ret[k])
+//@   loop 1 invariant forall k int :: 0 <= k && k < len(matches) ==> fresh(matches[k])
